@@ -422,6 +422,9 @@ void build_conn_from_script(Rng &rng, const Script &s, ConnPlan &cp, bool with_e
             x.expect.push_back(std::make_pair("@body.req", (q.framing == FR_NONE || q.body_withheld) ? Bytes() : q.payload));
             // the client of the previous exchange waited for its answer (Expect: 100-continue, refused): this request follows it
             if (i > 0 && s.req[i - 1].body_withheld) x.expect.push_back(std::make_pair("@req_after_prev_res", Bytes("1")));
+            // "Expect: 100-continue", a 4xx answer, and the client sends the body all the same: a parser that sees the refusal before
+            // any body byte cannot know that (the library assumes the body will not come): this answer is offered only after at least one body byte
+            if (i < s.res.size() && s.res[i].status >= 400 && s.res[i].status <= 499 && !q.body_withheld) for (auto &h : q.headers) if (h.name == "Expect") { x.expect.push_back(std::make_pair("@no_early_response", Bytes("1"))); break; }
             x.expect.push_back(std::make_pair("@msglen.req", strfmt("%ld", a.body_wire_len)));
             if (i < s.res.size()) {
                 const MsgSpec &p = s.res[i];
@@ -515,6 +518,7 @@ void interleave_ops(Rng &rng, const ConnPlan &cp, int conn, const std::vector<si
             for (auto &x : cp.xchg) {
                 if ((size_t) x.res.a < e && x.res.b > x.res.a) {
                     size_t need = early_ok ? (size_t) x.req_head_end : (size_t) x.req.b;
+                    if (early_ok) for (auto &ex : x.expect) if (ex.first == "@no_early_response") need = std::min<size_t>((size_t) x.req.b, (size_t) x.req_head_end + 1);
                     if (reqpos < need) { can[1] = false; break; }
                 }
             }
